@@ -10,7 +10,7 @@ import (
 	"verifharness/kit"
 )
 
-const rule = "entry point drawn from the group's table; input from six weighted sources: valid object (3%), hostile-by-construction object (17%: self-issued certificates with short Ed25519 / odd RSA / off-curve EC / bad DSA keys and crafted signatures, OCSP responses embedding them, SST/CRLSet/OneCRL with lying length fields), random DER tree with hostile value pools and wrong length forms (10%), random bytes (5%), byte-level mutation of a valid object (15%, always for non-ASN.1 formats), TLV-level mutation of a valid object's parsed tree incl. OCTET/BIT STRING encapsulated content (50%). Every input runs in strict and permissive mode. Non-trivial: the parser accepted in some mode, or the input derives from a valid/hostile object, or its outer TLV is complete (the parser got past the outer header); distinct by hash of (entry point, input, aux)"
+const rule = "entry point drawn from the sub-check's table; input from six weighted sources (weights 10:3:4:2:1:1 for ASN.1 formats): TLV-level mutation of a valid object's parsed tree incl. OCTET/BIT STRING encapsulated content; byte-level mutation (for OneCRL / CRLSet header also JSON-value-level) of a valid object - the only mutation for non-ASN.1 formats; object hostile by construction (self-issued certificates with short Ed25519 / odd RSA / off-curve EC / bad DSA keys and crafted signatures, OCSP responses embedding them, SST / CRLSet / OneCRL / SCT lists with lying length fields or wrong JSON types); random DER tree with hostile value pools and wrong length forms; random bytes; unmodified valid object. Every input runs in strict and in permissive mode. Non-trivial: the parser accepted in some mode, or the input derives from a valid/hostile object, or its outer TLV is complete (the parser got past the outer header); distinct by hash of (entry point, input, aux, read program)"
 
 var assumptions = []string{
 	"inputs are at most 32 KiB (a hang or blow-up that needs larger inputs is out of reach)",
@@ -60,7 +60,7 @@ func runGroup(t *testing.T, name string, quick, thorough int, weight func(ep *EP
 }
 
 func TestPropX509(t *testing.T) {
-	runGroup(t, "x509", 5200, 26000, func(ep *EP) int {
+	runGroup(t, "x509", 10400, 62400, func(ep *EP) int {
 		switch ep.Name {
 		case "x509.ParseCertificate":
 			return 8
@@ -71,12 +71,12 @@ func TestPropX509(t *testing.T) {
 	}, "x509")
 }
 
-func TestPropASN1(t *testing.T) { runGroup(t, "asn1", 5000, 25000, nil, "asn1") }
+func TestPropASN1(t *testing.T) { runGroup(t, "asn1", 10000, 60000, nil, "asn1") }
 
-func TestPropCryptobyte(t *testing.T) { runGroup(t, "cryptobyte", 3000, 15000, nil, "cryptobyte") }
+func TestPropCryptobyte(t *testing.T) { runGroup(t, "cryptobyte", 6000, 36000, nil, "cryptobyte") }
 
 func TestPropCTX509(t *testing.T) {
-	runGroup(t, "ctx509", 1800, 9000, func(ep *EP) int {
+	runGroup(t, "ctx509", 3600, 21600, func(ep *EP) int {
 		if ep.Name == "ctx509.ParseCertificate" {
 			return 5
 		}
@@ -85,7 +85,7 @@ func TestPropCTX509(t *testing.T) {
 }
 
 func TestPropRevocation(t *testing.T) {
-	runGroup(t, "revocation", 3000, 15000, func(ep *EP) int {
+	runGroup(t, "revocation", 6000, 36000, func(ep *EP) int {
 		if ep.Name == "ocsp.ParseResponse" {
 			return 3
 		}
@@ -96,10 +96,10 @@ func TestPropRevocation(t *testing.T) {
 	}, "ocsp", "revocation")
 }
 
-func TestPropCT(t *testing.T) { runGroup(t, "ct", 1500, 7500, nil, "ct") }
+func TestPropCT(t *testing.T) { runGroup(t, "ct", 3000, 18000, nil, "ct") }
 
 func TestPropTLS(t *testing.T) {
-	runGroup(t, "tls", 3500, 17500, func(ep *EP) int {
+	runGroup(t, "tls", 7000, 42000, func(ep *EP) int {
 		switch ep.Name {
 		case "tls:clientHello", "tls:serverHello":
 			return 5
@@ -110,7 +110,7 @@ func TestPropTLS(t *testing.T) {
 	}, "tls")
 }
 
-func TestPropRSA(t *testing.T) { runGroup(t, "rsa", 1200, 6000, nil, "rsa") }
+func TestPropRSA(t *testing.T) { runGroup(t, "rsa", 2400, 14400, nil, "rsa") }
 
 // ---------------------------------------------------------------------------
 // sanity of the harness material (not part of the property; run by `go test`)
